@@ -30,6 +30,9 @@ def replay(module: str, oid: str, witness: dict) -> dict:
         return {'failures': None, 'error': f'witness outside bounds: {e}'}
     except Exception as e:
         tb = traceback.extract_tb(e.__traceback__)
+        if not any('/zeroconf/' in f.filename and '/verif/' not in f.filename for f in tb):
+            # raised by /verif's own code with no library frame on the stack: a defect of the harness, never a finding
+            return {'failures': None, 'error': f'harness exception {type(e).__name__}: {e} at ' + ' <- '.join(f'{os.path.basename(f.filename)}:{f.lineno}' for f in tb[-4:])}
         where = ' <- '.join(f'{os.path.basename(f.filename)}:{f.lineno}' for f in tb[-3:])
         ctx.failures.append(f'exception {type(e).__name__} at {where}: {e}')
     finally:
